@@ -823,6 +823,9 @@ class Engine:
             if m.group(2) == 'MAX':
                 return Int(BV((1 << (b - 1)) - 1 if sg else (1 << b) - 1, b), b, sg)
             return Int(BV((1 << (b - 1)) if sg else 0, b), b, sg)
+        m = re.match(r'^ZeroSized: (\{closure@.*\})$', t)
+        if m:
+            return Agg(m.group(1), {}, None, {}, None, creator=st.frames[-1].fn.name if st.frames else None)
         m = re.match(r'^tracing::Level::(TRACE|DEBUG|INFO|WARN|ERROR)$', t)
         if m:
             vs = self.si.enums['LevelInner']
@@ -1327,7 +1330,16 @@ class Engine:
                     pass   # most &mut args of havocked callees are receivers; we do not clobber modelled scalars silently
         if ctx.dest_ty is None:
             return UNIT
-        return self.fresh(st, ctx.dest_ty, 'hv_' + re.sub(r'[^A-Za-z0-9_]', '_', sc)[-24:])
+        return self.fresh_result_ok(st, ctx.dest_ty, 'hv_' + re.sub(r'[^A-Za-z0-9_]', '_', sc)[-24:])
+
+    def fresh_result_ok(self, st, ty, hint):
+        """fresh value; when `havoc_result_ok` is set, unknown callees returning Result succeed (used for start-up code)"""
+        if getattr(self, 'havoc_result_ok', False):
+            h, a = generic_args(ty.strip())
+            if last_seg(h) == 'Result' and a:
+                okv = UNIT if a[0].strip() == '()' else self.fresh(st, a[0], hint)
+                return Agg('Result', {}, 0, {0: {0: okv}}, self.si.enums['Result'], ty=ty)
+        return self.fresh(st, ty, hint)
 
     def push_frame(self, st, fn, args, dcell, ret_bb, tybind=None):
         f = Frame(fn, dcell, ret_bb, tybind)
